@@ -10,13 +10,13 @@ import itertools
 from lib.core import zlit
 
 MANIFEST = {
-    'text': 'Coq theorems (33, all closed under the global context) over the faithful list model of gfpx.Polynomial, for every '
+    'text': 'Coq theorems (36, all closed under the global context) over the faithful list model of gfpx.Polynomial, for every '
             'prime p and all normal-form coefficient lists of unbounded degree: add/sub/neg/mul, the divmod remainder and the '
             'gcdext outputs are normal forms; coefficient semantics of add/sub/neg; (GF(p)[X],+) is a commutative group (comm, '
             'assoc, zero, inverse, sub = add neg); mul is the convolution reduced mod p (mul_coef + mulz_is_convolution), '
             'commutative, associative, distributive over add, with unit and zero, and _sq = _mul; divmod_spec: divmod(a,b) = '
             '(q,r) implies a = q*b + r and len r < len b, _mod is its second component, division by zero raises; gcdext: Bezout '
-            'identity s*a + t*b = g through the Euclid loop, g monic or zero, loop never exhausts its fuel; powmod with exponent '
+            'identity s*a + t*b = g through the Euclid loop, g monic or zero, loop never exhausts its fuel; invert: r = invert(a,b) satisfies r*a + t*b = 1 for some t (Bezout through the shared Euclid loop, scaled by the inverse of the constant gcd), never exhausts its fuel; powmod with a negative exponent is the positive power of that genuine inverse (powmod_neg_correct); powmod with exponent '
             '>= 1 and nonzero modulus returns a reduced normal form and raises for a zero modulus; the binary class '
             'refines the list class at p = 2 for addition/subtraction (xor). The models (incl. gcd, invert, powmod, shifts, '
             'monic, deriv, int conversion, comparisons, evaluation, for both classes) are tied to /repo on every run: all '
@@ -36,7 +36,7 @@ MANIFEST = {
             'values; in the quick tier the model is evaluated on a deterministic sample of table rows for p in {5,7} and the '
             'degree<=6 binary table (all rows in the thorough tier) while implementation+oracle cover every pair. gmpy2.invert modulo p is modelled by Zp.inv_raw (unique inverse for prime p). NOT proved in Coq '
             '(covered only by the implementation-level oracle and the correspondence): gcd is the greatest common divisor '
-            '(divides both / universal; only Bezout + monic is proved), powmod_neg_correct (result * a^n = 1 mod b; only the as-coded equation powmod a (-n) b = powmod (invert a b) n b is a theorem), finfields ExtensionFieldElement.__pow__ is left to C20, quotient q has no trailing zero (only range proved), wf of lshift/rshift/monic/deriv/from_int, invert_spec, powmod = repeated multiplication, to_int/from_int order isomorphism, '
+            '(divides both / universal; only Bezout + monic is proved), finfields ExtensionFieldElement.__pow__ is left to C20, quotient q has no trailing zero (only range proved), wf of lshift/rshift/monic/deriv/from_int, invert raises exactly when gcd(a,b) is non-constant (only the success direction and totality are proved), powmod = repeated multiplication, to_int/from_int order isomorphism, '
             'deriv/reverse/truncate semantics, and the refinement binary-class mul/divmod = list mul/divmod at p = 2 '
             '(only add/sub refinement is proved). _reverse/_truncate/_from_terms/_to_terms are not modelled.',
     'technique': 'Coq proof over executable model (integer-polynomial evaluation semantics + canonical forms) + '
